@@ -682,6 +682,13 @@ where
             let was_escaped_blank = std::mem::take(&mut after_escaped_blank);
             match (&escape, pending[i]) {
                 (Some(Escape::Quote(quote)), c) if c == *quote => escape = None,
+                (Some(Escape::Quote(quote)), b'\n') => {
+                    // A quoted string does not run over the end of its line.
+                    return Err(io::Error::new(
+                        io::ErrorKind::InvalidInput,
+                        format!("Unterminated quote: {quote}"),
+                    ));
+                }
                 (Some(Escape::Quote(_)), c) => result.push(c),
                 (Some(Escape::Slash), c) => {
                     result.push(c);
